@@ -30,7 +30,9 @@ COMPONENTS = {
     "stub": ["no devices attached (LCD/keyboard windows are plain bus locations at this level; device windows are "
              "exercised through the machines in C15/C16)"],
 }
-ASSUMPTIONS = ["addresses 0x100100-0xFFFFFF (after 24-bit wrap) belong to neither space and are not generated",
+ASSUMPTIONS = ["addresses 0x100100-0xFFFFFF (after 24-bit wrap) belong to neither space and are not generated, except "
+               "0x100100-0x100102 as the tail of a wide access that starts in the last internal cells (judged under each "
+               "implementation's own byte-level reduction: Python internal memory modulo 256, Rust external array modulo 1 MiB)",
                "card-slot addresses beyond the inserted card's size and reads of an absent card are unspecified; "
                "only 'writes are not latched' is demanded there",
                "overlays are not placed on the mirror window's target (0xB8000-0xBFFFF)"]
@@ -228,6 +230,9 @@ class Model:
         if ex == "rs-mem" and cfg["rom"]:
             self.readonly += [(0x00000, 0x3FFFF), (0xC0000, 0xFFFFF)]
         self.absent_seen: Dict[int, int] = {}
+        # Rust: external 0x100-0x102 must be plain RAM for the tail reduction to coincide with an ordinary access
+        self.tail_ok = ex == "py-mem" or (ex == "rs-mem" and not cfg["rom"] and
+                                          not any(lo <= 0x102 and hi >= 0x100 for lo, hi in cfg["readonly"]))
         # a runtime configured by the device-model loaders seeds some internal registers (interrupt mask, serial
         # port): there the initial value of an internal cell is whatever is read first; it must then behave as memory
         self.int_learn = bool(ex == "rs-mem" and cfg["rom"] and cfg.get("loader"))
@@ -249,6 +254,16 @@ class Model:
         if a >= INT0:
             if a < INT0 + 0x100:
                 return ("int", a - INT0)
+            if a < INT0 + 0x103 and self.tail_ok:
+                # the tail of a wide access that starts in the last cells of the internal memory.  0x100100 and up
+                # belong to neither space; each implementation reduces them its own way, and that reduction is what
+                # its *byte* accesses there show: Python takes every address from 0x100000 up as internal memory modulo
+                # 256, Rust indexes its external array modulo 1 MiB.  A wide access must be the composition of those
+                # byte accesses and change nothing else.  (Only these three addresses are generated: further up, Rust's
+                # reduction bypasses mirror, overlays and write protection, which the property does not cover.)
+                if self.ex == "py-mem":
+                    return ("int", a - INT0 - 0x100)
+                return ("ext", a & 0xFFFFF)
             return None
         if self.aliased_top and a >= 0xFFF00:
             return ("int", a - 0xFFF00)
@@ -396,12 +411,14 @@ def generate(batch: str, r: Rng, idx: int, tier: str) -> Dict[str, Any]:
             a = INT0 + ro.below(0x100)
         else:
             a = ro.choice([0xB8000, 0x88000, 0x90000, 0x80000, 0xA8000]) + ro.below(0x20)
+        if ro.chance(1, 25):
+            a = INT0 + 0xFD + ro.below(3)        # wide accesses here run over the top of the internal memory
         if ro.chance(1, 6):
             a += ro.range(1, 255) << 24          # 24-bit wrap alias
         return a
 
     def ok(a: int, nbytes: int) -> bool:
-        return all(model.specified(a + i) for i in range(nbytes))
+        return a >= 0 and all(model.specified(a + i) for i in range(nbytes))
 
     while len(ops) < n:
         kind = ro.weighted([("st", 10), ("ld", 4), ("topo", 1 if changes < 2 else 0)])
